@@ -34,6 +34,8 @@ ASSUMPTIONS = [
 
 
 def run(ctx):
+    from ._shared import no_escape_from_finally
+    no_escape_from_finally(ctx, 'D1')   # a failing append raises: no clean-up swallows the exception in flight
     c = ctx.repo.cls('Array')
     committer = find_committer(ctx)
     all_appenders = find_appenders(ctx)
